@@ -149,4 +149,5 @@ def run(prog, rep, tier, cfg):
     # ---- running totals (amounts, power, datacap) accumulated in loops keep their earlier contributions
     X.accumulator_integrity('K12', 'running-totals', ['fil_actor_miner', 'fil_actor_power'], 'running totals of amounts')
     X.no_dropped_results('K14', 'results-not-discarded', ['fil_actor_miner', 'fil_actor_power'], 'no Result of a call is discarded')
+    X.tolerated_failures('K15', 'tolerated-failures', ['fil_actor_miner', 'fil_actor_power'], 'tolerated failures are the reviewed ones')
 
